@@ -110,9 +110,25 @@ type gen struct {
 	rng *rand.Rand
 	ops []string
 	tip int // height of the engine's tip; the application is at the same height
+	// voc, when set, replaces the script vocabulary (wide.go: keys of every length, events with explicit topics)
+	voc *vocab
 }
 
 func (g *gen) add(op string) { g.ops = append(g.ops, op) }
+
+func (g *gen) script() string {
+	if g.voc != nil {
+		return g.voc.script(g.rng)
+	}
+	return genScript(g.rng)
+}
+
+func (g *gen) section(maxItems, failPct int) string {
+	if g.voc != nil {
+		return g.voc.section(g.rng, maxItems, failPct)
+	}
+	return genSection(g.rng, maxItems, failPct)
+}
 
 func (g *gen) txs(n int) {
 	for i := 0; i < n; i++ {
@@ -120,7 +136,7 @@ func (g *gen) txs(n int) {
 		if g.rng.Intn(25) == 0 {
 			cmd = "nope"
 		}
-		script := genScript(g.rng)
+		script := g.script()
 		if g.rng.Intn(3) == 0 {
 			g.add(fmt.Sprintf("vtx %s %s", cmd, script))
 		}
@@ -137,11 +153,11 @@ func (g *gen) block() {
 	h := g.tip + 1
 	g.add(fmt.Sprintf("ism %d", h))
 	if g.rng.Intn(3) == 0 {
-		g.add("bte " + sectionOrDash(genSection(g.rng, 3, 5)))
+		g.add("bte " + sectionOrDash(g.section(3, 5)))
 	}
 	g.txs(g.rng.Intn(4))
 	if g.rng.Intn(3) == 0 {
-		g.add("ate " + sectionOrDash(genSection(g.rng, 3, 5)))
+		g.add("ate " + sectionOrDash(g.section(3, 5)))
 	}
 	if g.rng.Intn(4) == 0 {
 		g.add("commit none dry") // the generator asks for the root first
@@ -157,6 +173,9 @@ func (g *gen) block() {
 	}
 	g.add("clear")
 	g.add("dump")
+	if g.voc != nil {
+		g.add(fmt.Sprintf("diff %d", h)) // the diff record stored for the block, read back and decoded
+	}
 	g.tip = h
 }
 
@@ -202,7 +221,7 @@ func (g *gen) restart() {
 func (g *gen) malformed() {
 	switch g.rng.Intn(9) {
 	case 0: // calls without an execution context
-		g.add("etx run " + genScript(g.rng))
+		g.add("etx run " + g.script())
 		g.add("commit none")
 		g.add("revert none")
 		g.add("bte -")
@@ -221,16 +240,16 @@ func (g *gen) malformed() {
 		if g.rng.Intn(2) == 0 {
 			g.add(fmt.Sprintf("ism %d", g.tip+1))
 			g.txs(1)
-			g.add(fmt.Sprintf("etx run %s dry %d", genScript(g.rng), g.tip+7))
+			g.add(fmt.Sprintf("etx run %s dry %d", g.script(), g.tip+7))
 			g.add("dump")
 			g.add("clear")
 		} else {
-			g.add(fmt.Sprintf("etx run %s dry %d", genScript(g.rng), g.tip+7))
+			g.add(fmt.Sprintf("etx run %s dry %d", g.script(), g.tip+7))
 			g.add("dump")
 		}
 	case 5: // a request without the consensus parameters
 		g.add(fmt.Sprintf("ism %d", g.tip+1))
-		g.add("etx run " + genScript(g.rng) + " nc")
+		g.add("etx run " + g.script() + " nc")
 		g.add("dump")
 		g.add("clear")
 	case 6: // the context is used again after the commit
@@ -245,7 +264,7 @@ func (g *gen) malformed() {
 	case 7: // finalize drops the diffs a later recovery needs
 		g.add(fmt.Sprintf("fin %d", g.rng.Intn(g.tip+2)))
 	case 8: // transaction verified outside of a block
-		g.add(fmt.Sprintf("vtx run %s", genScript(g.rng)))
+		g.add(fmt.Sprintf("vtx run %s", g.script()))
 	}
 }
 
